@@ -23,7 +23,8 @@ DECIDES = ('(CTX) every load of CIntToPy / CIntFromPy binds all variables the te
            '(DIGITS) inside every {{for _size in ...}} block the digit count tested (`size == {{v}}`) is the count passed to pylong_join, the digits pointer '
            'named is the one declared, and a join without explicit type is verified against pylong_join\'s default join type; '
            '(API) in __PYX_VERIFY_RETURN_INT_EXC(T, F, Api(x)) F is the return type of Api in the CPython headers and the size guard compares with sizeof(F); '
-           'in CIntToPy each `sizeof(T) <op> sizeof(G)) return Api((C) value)` has C == G == parameter type of Api, signed G in the unsigned branch only under `<`.')
+           'in CIntToPy each `sizeof(T) <op> sizeof(G)) return Api((C) value)` has C == G == parameter type of Api, signed G in the unsigned branch only under `<`; '
+           '(FIXED) the hand-named to_py/from_py functions of the fixed integer types (size_t, Py_ssize_t, Py_hash_t, Py_UCS4, Py_UNICODE) take/return a C type of the same signedness class and at least the width.')
 NOT_DECIDED = ('range conditions per digit count (8 * sizeof(T) > n * PyLong_SHIFT ...), the text pylong_join generates, the fallback bit-chunk loop, '
                'TypeError for non-integers (delegated to __Pyx_PyNumber_Long), error_condition of external typedefs (instance attributes); '
                'DESIGN\'s "sibling agreement of the {{for _size in (2,3,4)}} sets" is deliberately NOT implemented: a branch that handles fewer digit counts '
@@ -563,7 +564,8 @@ def rule_api(ctx):
 
 
 def run(ctx):
-    return [rule_ctx(ctx), rule_sent(ctx), rule_digits(ctx), rule_api(ctx)]
+    from ..rules import fixedconv
+    return [rule_ctx(ctx), rule_sent(ctx), rule_digits(ctx), rule_api(ctx), fixedconv.rule_fixed(ctx)]
 
 
 MUTATIONS = [
